@@ -27,6 +27,18 @@ CHECKS = {
  "C11": ("fault_enumeration", "Producer: trailers of every wrapped stream compared with reference CRC-32/ISIZE/Adler-32 of the input. Verifier: single-bit flips, substitutions, truncations and trailer edits of valid wrapped streams, with splits inside the trailer; success accepted only if the trailer bytes present match the reference checksum of the delivered bytes; state->crc compared after completion.",
          "reference CRC/Adler anchored to published check values; *_NO_HDR modes do not verify (documented)",
          "single-fault injection over wrapped streams + checksum oracle recomputed from delivered bytes"),
+ "C05": ("exploration", "Every kernel variant and the codec (one-shot and streaming) run with each buffer in its own mapping bounded by inaccessible pages, consumed chunks made PROT_NONE, canaries around every buffer, context invariants, and the all-C build under ASan + bounds; a fault or damaged canary is attributed to the buffer and the faulting library symbol.",
+         "declared ranges follow the headers (gf tables 32*k*rows, documented alignment/multiples); in-buffer over-reads are invisible to page protection; negative vects on RAID assembly kernels is a recorded known finding",
+         "MMU guard pages + released-chunk histories + canaries + ASan/bounds, over generated workloads"),
+ "C16": ("exploration", "The real resolvers run under the x86 trap flag with CPUID/XGETBV emulated for every configuration of a dependency-closed space (covering subset in quick, complete in thorough); for every distinct slot assignment a battery over all public APIs is single-step traced, executed instructions are classified from the binary's disassembly and must be available in every configuration mapping to that assignment; untraced codec implementations are covered by a disassembly sweep; deterministic results must agree across assignments.",
+         "mapping of untested extensions to CPU generations (SSSE3/POPCNT/BMI); EVEX implies full AVX-512 G1; host supports all simulated configurations",
+         "runtime observation of resolver decisions under simulated CPUs + single-step instruction tracing (disassembly sweep for the untraced remainder)"),
+ "C18": ("exploration", "Thousands of histograms from 12 adversarial families through both builders: stored header parsed by an independent parser (complete codes), every symbol the encoder emits decoded by the reference, level-0 round trips (reference + zlib) under each level-0 kernel, install rules probed across stream states.",
+         "encoder lookup observed through igzip/huffman.h helpers; reference decoder trusted",
+         "runtime differential oracle over generated histograms + independent header parse + per-symbol decode"),
+ "C19": ("exploration", "Header writers compared byte for byte with an independent RFC 1952/1950 writer incl. too-small-output behaviour; readers fed independent bytes under every chunking with overflow resume and guard-page buffers; arbitrary bytes must give documented status codes.",
+         "FCHECK may be 0 or 31 when both valid; realloc semantics on overflow resume",
+         "runtime differential oracle (independent header codec) + chunking histories + guard pages"),
  "C03": ("exploration", "Every exported encode/dot-product variant (and the dispatchers under simulated CPU levels through the real resolvers) executed on tens of thousands of generated cases with guard-page-placed buffers and compared byte for byte with an independent shift-and-xor GF(2^8) matrix product; held on the executions listed in the evidence, nothing is claimed about cases not run.",
          "trusts the independent reference (self-tested against field axioms), the host CPU executing every variant, and ec_init_tables (decided separately by C12)",
          "runtime differential oracle + guard pages/canaries on every kernel variant"),
@@ -54,6 +66,9 @@ ENGINES = [
  ("eng_mem", "harness/eng_mem.c", ["C20", "C05"], "zero detect sweep"),
  ("eng_deflate", "harness/eng_deflate.c", ["C01", "C07", "C10", "C11", "C14", "C17", "C05"], "compression driver: one-shot/streaming with adversarial schedules, reference inflate + zlib oracles, event log, flush-point and window monitors"),
  ("eng_inflate", "harness/eng_inflate.c", ["C02", "C06", "C07", "C11", "C05"], "decompression driver over grammar-generated, foreign, mutated and random streams; stateless and streaming schedules; reference verdict oracle"),
+ ("eng_huff", "harness/eng_huff.c", ["C18", "C05"], "custom Huffman tables: histogram families, header parser, per-symbol decode, round trips, install rules"),
+ ("eng_hdr", "harness/eng_hdr.c", ["C19", "C05"], "gzip/zlib header writers and readers vs independent codec; chunking, overflow resume, arbitrary bytes"),
+ ("eng_disp", "harness/eng_disp.c", ["C16"], "resolvers under simulated CPUID/XGETBV, API battery under the trap-flag instruction tracer; driver vlib/disp.py classifies executed instructions"),
  ("eng_gfmath", "harness/eng_gfmath.c", ["C09", "C12"], "scalar GF arithmetic (exhaustive), inversion, generators, erasure patterns"),
 ]
 WIP = "check not registered yet (implementation in progress; the technique applies - see DESIGN.md section 3)"
